@@ -18,7 +18,7 @@ REQUIRED_THEOREMS = [
     "Cv.C16.checked_rejects_length", "Cv.C16.checked_rejects_unsorted", "Cv.C16.checked_eq_unchecked",
     "Cv.C16.panic_mode_rejects", "Cv.C16.checked_total", "Cv.C16.sortedOk_of_nondecreasing", "Cv.C16.interpAll_eq_some_iff", "Cv.C16.interpAll_eq_none_iff",
 ]
-RULE = ("calls with 4095..10001 (thorough: ..20000) unsorted targets incl. knots, +-1 ulp and out-of-range targets at indices >= 4096; knot counts 2..200, strictly increasing abscissae with neighbouring spacing ratios up to 1e6, finite ordinates of "
+RULE = ("x and tgt as aliasing windows of one buffer (prefix, same slice, overlapping; op interp_alias); calls with 4095..10001 (thorough: ..20000) unsorted targets incl. knots, +-1 ulp and out-of-range targets at indices >= 4096; knot counts 2..200, strictly increasing abscissae with neighbouring spacing ratios up to 1e6, finite ordinates of "
         "mixed magnitude; targets at every kind of position (knots, midpoints, +-1 ulp around knots, random interior, just "
         "beyond and far beyond both ends); three modes x checked/unchecked; rejected inputs (unsorted, mismatched lengths); "
         "degenerate inputs (n = 0, 1, ties, NaN) compared with the model only; non-trivial = distinct request")
@@ -55,10 +55,17 @@ def corpus_many():
     return out
 
 
+def corpus_alias():
+    grid = [0.0, 1.0, 2.0, 3.0, 4.0, 5.0]
+    ys = [0.0, 10.0, 5.0, 20.0]
+    return [alias_line("chk", "extrap", 0, 4, 0, 6, grid, ys), alias_line("chk", "panic", 0, 4, 0, 6, grid, ys),
+            alias_line("chk", "fill %s %s" % (f2h(-1.0), f2h(-2.0)), 0, 4, 0, 6, grid, ys), alias_line("chk", "panic", 0, 4, 0, 4, grid, ys)]
+
+
 def corpus():
     x = vec([0.0, 1.0, 2.0])
     y = vec([0.0, 10.0, 20.0])
-    return corpus_many() + [
+    return corpus_alias() + corpus_many() + [
         # F28: right of the last abscissa the panic mode returned a value and the fill mode extrapolated
         "interp chk fill %s %s %s %s %s" % (f2h(-1.0), f2h(-2.0), x, y, vec([3.0])),
         "interp chk panic %s %s %s" % (x, y, vec([3.0])),
@@ -220,6 +227,7 @@ def gen(rng, tier):
                 xs = [rng.normal() for _ in range(n)]
                 add("n<2(model-only)", "interp %s %s %s %s %s" % (variant, mode, vec(xs), vec(xs), vec([rng.normal() for _ in range(rng.randint(0, 3))])))
     strata(rng.fork("strata"), add, quick)
+    alias_lines(rng.fork("alias"), add, 36 if quick else 720)
     r2 = rng.fork("many-targets")
     if quick:
         counts = [4097, r2.choice([8193, 10001])] + r2.shuffle([4095, 4096, 4100, 6000, 8191, 8192])[:2]
@@ -401,18 +409,53 @@ def many_lines(rng, add, counts, knot_counts, kind):
 
 def parse(line):
     t = line.split()
+    alias = t[0] == "interp_alias"
     variant, mode = t[1], t[2]
     p = 3
     fill = None
     if mode == "fill":
         fill = (t[3], t[4])
         p = 5
+    if alias:
+        xa, n, tb, k = (int(v) for v in t[p:p + 4])
+        p += 4
     vecs = []
-    for _ in range(3):
-        n = int(t[p])
-        vecs.append([h2f(v) for v in t[p + 1:p + 1 + n]])
-        p += 1 + n
+    for _ in range(2 if alias else 3):
+        m = int(t[p])
+        vecs.append([h2f(v) for v in t[p + 1:p + 1 + m]])
+        p += 1 + m
+    if alias:
+        buf, ys = vecs
+        return variant, mode, fill, buf[xa:xa + n], ys, buf[tb:tb + k]
     return variant, mode, fill, vecs[0], vecs[1], vecs[2]
+
+
+def alias_line(variant, mode, xa, n, tb, k, buf, ys):
+    return "interp_alias %s %s %d %d %d %d %s %s" % (variant, mode, xa, n, tb, k, vec(buf), vec(ys))
+
+
+def alias_lines(rng, add, count):
+    """x and tgt are windows of ONE buffer (round-11 seed C16y: a pointer-equality shortcut): prefix, same slice, tgt prefix of x,
+    overlapping windows; the oracle works on the values, so aliasing must be invisible."""
+    for j in range(count):
+        g = rng.choice([6, 7, 9, 12, 20, 40])
+        grid = knots(rng, g)
+        shape = j % 4
+        if shape == 0:        # fit on the first n points, evaluate on the whole grid
+            n = rng.randint(2, g - 1); xa, tb, k = 0, 0, g
+        elif shape == 1:      # the very same slice
+            n = g; xa, tb, k = 0, 0, g
+        elif shape == 2:      # targets = a proper prefix of x
+            n = rng.randint(3, g); xa, tb, k = 0, 0, rng.randint(1, n - 1)
+        else:                 # overlapping windows
+            n = rng.randint(2, g - 1); xa = rng.randint(0, g - n); k = rng.randint(1, g); tb = rng.randint(0, g - k)
+        ys = ordinates(rng, n)
+        l, r = rng.normal() * 100, rng.normal()
+        mode = ["extrap", "panic", "fill %s %s" % (f2h(l), f2h(r))][(j // 4) % 3]
+        variant = "chk" if (j // 12) % 2 == 0 else "unc"
+        if shape == 0 and j % 8 == 4:
+            variant = "chk"
+        add("alias_%s" % ["prefix_x", "same_slice", "prefix_tgt", "windows"][shape], alias_line(variant, mode, xa, n, tb, k, grid, ys))
 
 
 def nontrivial(line, reply):
